@@ -5744,6 +5744,8 @@ class TreeSequence:
             self._individuals_population = (
                 self._ll_tree_sequence.get_individuals_population()
             )
+            # The cached array is handed out to every caller: it must be read-only.
+            self._individuals_population.flags.writeable = False
         return self._individuals_population
 
     @property
@@ -5762,6 +5764,7 @@ class TreeSequence:
         """
         if self._individuals_time is None:
             self._individuals_time = self._ll_tree_sequence.get_individuals_time()
+            self._individuals_time.flags.writeable = False
         return self._individuals_time
 
     @property
@@ -5789,6 +5792,7 @@ class TreeSequence:
             self._individuals_location = individuals.location.reshape(
                 (self.num_individuals, n)
             )
+            self._individuals_location.flags.writeable = False
         return self._individuals_location
 
     @property
